@@ -276,7 +276,41 @@ def overlapping_renames():
     return bad
 
 
+VIA_IMPORTED = {
+    "src/a.f90": ("module a\n  implicit none\n  type :: t\n  contains\n    procedure :: meth\n  end type t\n  type :: holder\n    type(t) :: inner\n  end type holder\n  type(t) :: shared\n  type(holder) :: box\n"
+                  "contains\n  subroutine meth(self)\n    class(t), intent(in) :: self\n  end subroutine meth\nend module a\n"),
+    "src/b.f90": "module b\n  use a, only: thing => shared, box\n  implicit none\nend module b\n",
+    "src/c.f90": ("module c\n  use b\n  implicit none\ncontains\n  subroutine via_renamed_variable()\n    call thing%meth()\n  end subroutine via_renamed_variable\n"
+                  "  subroutine via_component()\n    call box%inner%meth()\n  end subroutine via_component\nend module c\n"),
+    "src/d.f90": "program d\n  use a\n  implicit none\n  call shared%meth()\nend program d\n",
+}
+
+
+def through_imported_variables():
+    """a reference made through a use-associated variable (renamed, re-exported, or a component of one) resolves to the exporting module's entity, whatever the order of the files"""
+    import itertools
+    names = sorted(VIA_IMPORTED)
+    for order in list(itertools.permutations(names))[::5]:
+        files = {f"src/{i}_{n.split('/')[1]}": VIA_IMPORTED[n] for i, n in enumerate(order)}
+        proj = realrun.build_project(files)
+        got = {}
+        for m in proj.modules:
+            for p in m.subroutines:
+                if p.name.startswith("via_"):
+                    got[p.name] = [getattr(c, "name", c) if not isinstance(c, str) else f"<unresolved {c}>" for c in p.calls]
+        for p in proj.programs:
+            got["program d"] = [getattr(c, "name", c) if not isinstance(c, str) else f"<unresolved {c}>" for c in p.calls]
+        want = {"via_renamed_variable": ["meth"], "via_component": ["meth"], "program d": ["meth"]}
+        if got != want:
+            return {"file order": [n.split("/")[1] for n in order], "calls": got, "expected": want}
+    return None
+
+
 def search():
+    bad = through_imported_variables()
+    if bad:
+        return {"confirmed": True, "input": {"files": VIA_IMPORTED}, "actual": bad, "expected": "calls through use-associated variables resolve to the binding of the exporting module's type",
+                "how": "bounded search on the real pipeline: 5 file orders of a four-file project"}
     bad = overlapping_renames()
     if bad:
         return {"confirmed": True, "input": {"files": OVERLAP}, "actual": bad, "expected": "the rename clauses of a USE statement apply simultaneously", "how": "bounded search on the real pipeline: swapped and chained renames without ONLY"}
